@@ -131,7 +131,8 @@ def coq_event(ev):
 def coq_compile_case(variant, events, prog):
     evs = tlist((coq_event(e) for e in events), "event")
     real = "None" if prog is None else "(Some %s)" % coq_program(prog)
-    return "((%s, (%s, %s)), (%s, %s))" % (coq_bool(variant[0]), coq_bool(variant[1]), coq_bool(variant[2]), evs, real)
+    v = [coq_bool(x) for x in variant]
+    return "((%s, (%s, (%s, (%s, %s)))), (%s, %s))" % (v[0], v[1], v[2], v[3], v[4], evs, real)
 
 
 K_IMPORTS = "Lib.Str Model.TALES Model.TALProg Model.TALVM Model.TALCompile Corr.K17"
@@ -154,11 +155,12 @@ def k_compile(prop, name, items, variant, shard=120):
     return coq_eval(prop, name, K_IMPORTS, "chk_compile", cases, shard=shard, pre=K_PRE)
 
 
-PROBES = [('<p tal:content="text foo">d</p>', "text"), ('<script>a<b</script>', "cdata"), ('<p tal:content="x">d', "eof")]
+PROBES = [('<p tal:content="text foo">d</p>', "text"), ('<script>a<b</script>', "cdata"), ('<p tal:content="x">d', "eof"),
+          ('<p tal:define="a b" tal:define="c d">x</p>', "dup"), ('<div metal:define-macro="m" metal:define-slot="s">D</div>', "start")]
 
 
 def probe_variant():
-    """Which of the three repairs does the code under test contain?  (v_text, v_cdata, v_eof) —
+    """Which of the repairs does the code under test contain?  (v_text, v_cdata, v_eof, v_dup, v_start) —
     selects the variant of Model/TALCompile.v that K compares with; K then checks that variant
     on every generated template."""
     res = run_cases([{"id": i, "main": src, "lib": None, "ctx": {}, "options": None, "want": ["prog"]}
@@ -168,7 +170,10 @@ def probe_variant():
     cmds1 = (res[1].get("prog") or {}).get("main", {}).get("cmds", [])
     v_cdata = any(c[0] == 9 and "a<b" in c[1] for c in cmds1)
     v_eof = "compile_exc" in res[2]
-    return (v_text, v_cdata, v_eof)
+    v_dup = "compile_exc" in res[3]
+    mac = (res[4].get("prog") or {}).get("main", {}).get("macros", [])
+    v_start = any(m[1] == 0 for m in mac)
+    return (v_text, v_cdata, v_eof, v_dup, v_start)
 
 
 # templates that exercise the compiler's error paths and corner cases (compile model K)
@@ -182,6 +187,12 @@ MALFORMED = ['<p tal:content="x">unclosed', '<p tal:define="x">bad</p>', '<b><p 
              '<p metal:use-macro="">c</p>', '<p metal:define-slot="">c</p>', '<p metal:define-slot="a b">c</p>',
              '<div metal:use-macro="m"><i metal:fill-slot="s">1</i><i metal:fill-slot="s">2</i></div>',
              '<p tal:content="a" tal:replace="b">both</p>', '<p tal:define="a b" tal:define="c d">dup</p>',
+             '<p tal:repeat="i l" tal:repeat="j l">dup</p>', '<div metal:use-macro="a" metal:use-macro="b">dup</div>',
+             '<tal:block content="a" tal:content="b">dup</tal:block>', '<tal:block omit-tag="" tal:omit-tag="x">fine</tal:block>',
+             '<div metal:define-macro="m" metal:define-slot="s">D</div>',
+             '<b metal:define-macro="m">M</b><p metal:use-macro="macros/m" metal:define-macro="n">x</p>',
+             '<b metal:use-macro="m"><u metal:define-slot="q" metal:fill-slot="s">F</u></b>',
+             '<b metal:use-macro="m" metal:fill-slot="s">self</b>', '<b metal:use-macro="m" metal:define-macro="n" tal:define="x y">all</b>',
              '<ul><li tal:repeat="i l">a<li>b</ul>', '<p tal:attributes="a b;;c; d e">x</p>', '<p tal:omit-tag>v</p>',
              '<input tal:attributes="checked c" disabled>', '<p xmlns:foo="http://example.org/ns" foo:bar="1">n</p>',
              '<a tal:define="x string:a;;b;;;c">s</a>', '<p tal:repeat="i  l">two spaces</p>', '<P TAL:CONTENT="x">case</P>',
